@@ -2,19 +2,20 @@
 //! public API.  Channel 2i is the forward direction of link i (a sends into g{i}), channel 2i+1 the
 //! reverse direction (b sends into h{i}); `Gate::connect` creates both instances from one template.
 //!
-//! script: `seed brk br lat jit pol lim  nl mode{nl'}  ntx (len tx)*  norc (c j)*  (t c len)*`
-//!   seed: Builder::seeded; bitrate = br (brk = 0) | usize::MAX (brk = 1); latency/jitter in ns;
-//!   pol: 0 Drop | 1 Queue(None) | 2 Queue(Some(lim)); all links have these metrics;
-//!   nl' = clamp(nl, 1, 3) links; mode of link i: 0 connected before the run with its own
-//!   `Channel::new(metrics)`; 1 connected before the run with a clone of ONE shared template handle;
-//!   2 connected at run time, inside the handler that first sends on the link (either direction), with
-//!   `g0.channel()` -- the live forward channel of link 0 -- as template (link 0 itself: mode 2 = mode 0);
-//!   the tx table and the jitter oracle are inputs of the model only (the table's lengths are answered
-//!   here with ChannelMetrics::calculate_busy, the oracle is ignored: the real rng draws);
+//! script: `seed nl (brk br lat jit pol lim mode){nl'}  ntx (link len tx)*  norc (c j)*  (t c len)*`
+//!   seed: Builder::seeded; nl' = clamp(nl, 1, 3) links, each described by its metrics -- bitrate = br
+//!   (brk = 0) | usize::MAX (brk = 1); latency/jitter in ns; pol: 0 Drop | 1 Queue(None) | 2 Queue(Some(lim)) --
+//!   and its mode: 0 connected before the run with its own `Channel::new(metrics)`; 1 connected before the run
+//!   with a clone of ONE shared template handle (built from the metrics of the first mode-1 link); 2 connected
+//!   at run time, inside the handler that first sends on the link (either direction), with `g0.channel()` -- the
+//!   live forward channel of link 0 -- as template (link 0 itself: mode 2 = mode 0).  Both instances of a link
+//!   get the metrics of its template (Channel::dup);
+//!   the tx table and the jitter oracle are inputs of the model only (the table's (link, length) pairs are
+//!   answered here with ChannelMetrics::calculate_busy, the oracle is ignored: the real rng draws);
 //!   offers: message `m` (script position) of total length max(64, len) is `send`t at time t into channel
 //!   c mod 2nl'; consecutive offers with the same time and the same sending module are sent from one
 //!   handler invocation (a burst), woken by a `schedule_at` issued in at_sim_start (a's bursts, then b's).
-//! output: `7 n (len calculate_busy(len))*` then, chronologically,
+//! output: `7 n (link len calculate_busy(len))*` then, chronologically,
 //!   1 c m t            transmission of m started at t on channel c (ChannelProbe::on_message_transmit)
 //!   2 c m t            m handled by the receiving module at t
 //!   3 c t busy finish pk by   Channel::is_busy / transmission_finish_time / queue size as printed by the
@@ -62,14 +63,13 @@ type Burst = (u64, bool, Vec<(u64, u64, u64)>);
 #[derive(Default)]
 struct Shared {
     bursts: Vec<Burst>,
-    metrics: Option<ChannelMetrics>,
-    modes: Vec<u64>,
+    /// policy of each link's effective metrics (0 Drop, else Queue)
+    pols: Vec<u64>,
     ga: Vec<GateRef>,
     hb: Vec<GateRef>,
     connected: Vec<bool>,
     /// live channel instance per channel index, once its link is connected
     chans: Vec<Option<ChannelRef>>,
-    pol: u64,
     log: Vec<u64>,
     started: u64,
 }
@@ -171,9 +171,9 @@ impl Module for Node {
             return;
         }
         let k = msg.header().id as usize;
-        let (offs, pol) = {
+        let (offs, pols) = {
             let sh = self.1.lock().unwrap();
-            (sh.bursts[k].2.clone(), sh.pol)
+            (sh.bursts[k].2.clone(), sh.pols.clone())
         };
         for (c, m, len) in offs {
             let link = (c / 2) as usize;
@@ -196,7 +196,7 @@ impl Module for Node {
                 0
             } else if ch.is_busy() && queue_of(&ch).0 == pk0 + 1 {
                 3
-            } else if pol == 0 {
+            } else if pols[link] == 0 {
                 1
             } else {
                 2
@@ -217,20 +217,47 @@ impl Module for Node {
     }
 }
 
+fn metrics_of(brk: u64, br: u64, lat: u64, jit: u64, pol: u64, lim: u64) -> ChannelMetrics {
+    ChannelMetrics {
+        bitrate: if brk == 1 { usize::MAX } else { br as usize },
+        latency: Duration::from_nanos(lat),
+        jitter: Duration::from_nanos(jit),
+        drop_behaviour: match pol {
+            0 => ChannelDropBehaviour::Drop,
+            1 => ChannelDropBehaviour::Queue(None),
+            _ => ChannelDropBehaviour::Queue(Some(lim as usize)),
+        },
+    }
+}
+
 fn run_line(nums: &[u64]) -> Vec<u64> {
-    if nums.len() < 8 {
+    if nums.len() < 2 {
         return vec![8];
     }
     let mut cur = Cur::new(nums);
     let seed = cur.next();
-    let brk = cur.next();
-    let br = cur.next();
-    let lat = cur.next();
-    let jit = cur.next();
-    let pol = cur.next();
-    let lim = cur.next();
     let nl = cur.next().clamp(1, 3) as usize;
-    let mut modes: Vec<u64> = (0..nl).map(|_| cur.next()).collect();
+    let mut own: Vec<ChannelMetrics> = Vec::new();
+    let mut own_pol: Vec<u64> = Vec::new();
+    let mut modes: Vec<u64> = Vec::new();
+    for _ in 0..nl {
+        let (brk, br, lat, jit, pol, lim, mode) =
+            (cur.next(), cur.next(), cur.next(), cur.next(), cur.next(), cur.next(), cur.next());
+        own.push(metrics_of(brk, br, lat, jit, pol, lim));
+        own_pol.push(pol);
+        modes.push(mode);
+    }
+    // the metrics both instances of link i end up with: those of the template it is connected with
+    let first_shared = modes.iter().position(|m| *m == 1);
+    let eff_idx: Vec<usize> = (0..nl)
+        .map(|i| match modes[i] {
+            1 => first_shared.unwrap_or(i),
+            2 if i != 0 => 0,
+            _ => i,
+        })
+        .collect();
+    let eff: Vec<ChannelMetrics> = eff_idx.iter().map(|j| own[*j]).collect();
+    let pols: Vec<u64> = eff_idx.iter().map(|j| own_pol[*j]).collect();
     if modes[0] == 2 {
         modes[0] = 0;
     }
@@ -257,29 +284,20 @@ fn run_line(nums: &[u64]) -> Vec<u64> {
     let mut bursts: Vec<Burst> = grouped.iter().filter(|b| !b.1).cloned().collect();
     bursts.extend(grouped.iter().filter(|b| b.1).cloned());
 
-    let metrics = ChannelMetrics {
-        bitrate: if brk == 1 { usize::MAX } else { br as usize },
-        latency: Duration::from_nanos(lat),
-        jitter: Duration::from_nanos(jit),
-        drop_behaviour: match pol {
-            0 => ChannelDropBehaviour::Drop,
-            1 => ChannelDropBehaviour::Queue(None),
-            _ => ChannelDropBehaviour::Queue(Some(lim as usize)),
-        },
-    };
-
     let horizon: u64 = offers.iter().map(|o| o.0).max().unwrap_or(0)
         + offers
             .iter()
-            .map(|o| metrics.calculate_busy(&data_msg(0, 0, o.2)).as_nanos() as u64)
+            .map(|o| eff[(o.1 / 2) as usize].calculate_busy(&data_msg(0, 0, o.2)).as_nanos() as u64)
             .sum::<u64>()
-        + lat
-        + jit;
-    let mut out: Vec<u64> = vec![7, (tb.len() / 2) as u64];
-    for p in tb.chunks(2) {
-        if p.len() == 2 {
-            out.push(p[0]);
-            out.push(metrics.calculate_busy(&data_msg(0, 0, p[0])).as_nanos() as u64);
+        + eff.iter().map(|m| (m.latency + m.jitter).as_nanos() as u64).max().unwrap_or(0);
+    let mut out: Vec<u64> = vec![7, (tb.len() / 3) as u64];
+    for p in tb.chunks(3) {
+        if p.len() == 3 {
+            let busy = match eff.get(p[0] as usize) {
+                Some(m) => m.calculate_busy(&data_msg(0, 0, p[1])).as_nanos() as u64,
+                None => 0,
+            };
+            out.extend([p[0], p[1], busy]);
         }
     }
 
@@ -296,20 +314,17 @@ fn run_line(nums: &[u64]) -> Vec<u64> {
         s.connected = vec![false; nl];
         s.chans = vec![None; 2 * nl];
         s.bursts = bursts;
-        s.pol = pol;
-        s.metrics = Some(metrics);
-        s.modes = modes.clone();
+        s.pols = pols;
     }
-    let shared_template = Channel::new(metrics);
+    let shared_template = first_shared.map(|j| Channel::new(own[j]));
     for (i, mode) in modes.iter().enumerate() {
         match mode {
-            1 => connect_link(&sh, i, shared_template.clone()),
+            1 => connect_link(&sh, i, shared_template.clone().unwrap()),
             2 => {}
-            _ => connect_link(&sh, i, Channel::new(metrics)),
+            _ => connect_link(&sh, i, Channel::new(own[i])),
         }
     }
     drop(shared_template);
-
     // The calendar queue scans bucket by bucket (default width 2.5 ms): keep the number of buckets a run
     // walks over bounded by widening them for long horizons (C01: results do not depend on (n, t)).
     let mut builder = Builder::seeded(seed).quiet();
